@@ -98,10 +98,6 @@ def run(chk):
     cases = []
     while len(cases) < nA:
         c = c16.gen_case(rng, 4 if quick else 8)
-        if "repeatn" in c[0].ops or ".sum()" in c[0].src:
-            # repeat(n) and sum(Sequence<int>) are library code over reduce: they consume search permits of their own
-            # (while the value is built / inside the callback), which the model's pure callbacks do not have
-            continue
         cases.append((c, rng.choice([0, 1, 2, 3, 5, 8, 13, 40])))
     reqs, mlines = [], []
     for (p, cons, arg, call), L in cases:
